@@ -525,7 +525,14 @@ func (w *cliWorld) peerSaw(raw string) {
 			cb.Outcome = g.Weighted("cboutcome", []int{6, 1, 1, 1, 1, 1, 1})
 			w.cbs[tag] = cb
 			w.cbOrder = append(w.cbOrder, cb)
-			w.outbox = append(w.outbox, fmt.Sprintf(`{"jsonrpc":"2.0","id":"%s","method":"srvcall","params":{"t":"%s"}}`, tag, tag))
+			cbid := `"` + tag + `"`
+			if ob.ID != "" && g.Chance("cbidcollides", 0.3) {
+				// the server numbers its calls as it likes: the id of its request may
+				// equal the id of a call of the client that is outstanding right now
+				cbid = ob.ID
+				w.r.Probe("callback-id-equals-pending-call-id")
+			}
+			w.outbox = append(w.outbox, fmt.Sprintf(`{"jsonrpc":"2.0","id":%s,"method":"srvcall","params":{"t":"%s"}}`, cbid, tag))
 		}
 	}
 }
